@@ -76,3 +76,25 @@ def run(cx, chk):
             if not any(v[0] == rid for v in mine):
                 chk.ok(names[rid], w.tag, {"wrapper": w.tag, "paths": len(w.leaves)})
     chk.floor("C07.progress", "leftrec wrappers", n, 2)
+    # every rule the grammar marks @leftrec has the growing wrapper - whatever other directives it carries and in whatever order
+    by = {(w.inst.name, w.rule): w for w in wrapsem.cached(cx)}
+    k = 0
+    for inst in cx.instances():
+        g = cx.grammar_of(inst)
+        if g is None:
+            continue
+        for r in g.rules:
+            if r.kind != "rule" or "leftrec" not in r.flags:
+                continue
+            k += 1
+            w = by.get((inst.name, r.name))
+            tag = "%s/%s" % (inst.name, r.name)
+            if w is None or not w.leftrec:
+                chk.violation("C07.shape", "%s not-growing" % tag,
+                              "rule %s is marked @leftrec%s but its wrapper is %s: its recursive reference re-enters the rule at the same position without a "
+                              "seed - unbounded recursion" % (r.name, " (with " + ", ".join("@" + f for f in sorted(r.flags - {"leftrec"})) + ")" if r.flags - {"leftrec"} else "",
+                                                            "a plain @memoize wrapper" if w is not None else "not cached at all"),
+                              cx.site(w.body) if w is not None and getattr(w, "body", None) is not None else None)
+            else:
+                chk.ok("C07.shape", tag + " growing", {"rule": tag, "directives": sorted(r.flags)})
+    chk.floor("C07.shape", "rules marked @leftrec in the analysed grammars", k, 10)
